@@ -222,7 +222,7 @@ pub open spec fn signed_into(tracker: PeerCidTracker, s0: SignatureStore, s1: Si
 //@ end
 
 // ---- the context: who the tracker collects for, and which salt the farewell step signs with
-pub struct Scalars<'i> { pub ph: PhantomData<&'i u8> }
+pub struct Scalars<'i> { pub opaque_payload: u64, pub ph: PhantomData<&'i u8> }
 pub struct Streams { pub x: u8 }
 pub struct StreamMaps { pub x: u8 }
 pub struct LastErrorDescriptor { pub x: u8 }
@@ -232,7 +232,7 @@ pub struct CallResults { pub x: u8 }
 pub struct CallRequests { pub x: u8 }
 pub struct ExecutionCidState { pub x: u8 }
 pub struct CidInfo { pub x: u8 }
-impl<'i> Default for Scalars<'i> { fn default() -> Self { Scalars { ph: PhantomData } } }
+impl<'i> Default for Scalars<'i> { fn default() -> Self { Scalars { opaque_payload: 0, ph: PhantomData } } }
 impl Default for StreamMaps { fn default() -> Self { StreamMaps { x: 0 } } }
 impl Default for LastErrorDescriptor { fn default() -> Self { LastErrorDescriptor { x: 0 } } }
 impl Default for ErrorDescriptor { fn default() -> Self { ErrorDescriptor { x: 0 } } }
